@@ -197,6 +197,17 @@ def generate(seed, mode):
                 ops.extend(pair)
                 ops.append({'op': 'probe', 'k': k})
                 continue
+            if shape == 'chain' and o.random() < 0.06:
+                # a lookup from X, then a re-basing of a registry above X, then a change of what a required specification of the
+                # same key extends, with no lookup in between, then the probe
+                x = o.randrange(nR)
+                ops.append({'op': 'ask', 'e': o.randrange(len(ENTRIES)), 'key': 0, 'k': k, 'exact': True})
+                ops.append({'op': 'rbases', 'r': o.randrange(nR), 'base_of': keypool[0]['r'] if o.random() < 0.7 else x,
+                            'bases': [o.randrange(nR) for _ in range(o.choice([1, 1, 2]))], 'k': k})
+                ops.append({'op': 'specmut', 'key': 0, 'pos': o.randrange(0, 3), 'bases': [o.randrange(nRi) for _ in range(o.choice([0, 1, 2]))],
+                            'xs': o.sample(range(nRi), min(nRi, o.randint(0, 2))), 'only': o.random() < 0.4, 'also': o.random() < 0.3, 'k': k})
+                ops.append({'op': 'probe', 'k': k})
+                continue
             if shape in ('chain', 'dynamic') and o.random() < 0.04:
                 ops.append({'op': 'flaky', 'r': o.randrange(nR), 'sel': o.randrange(8), 'v': o.randrange(len(vals)),
                             'key': 0 if o.random() < 0.6 else o.randrange(64), 'k': k})
@@ -333,6 +344,10 @@ class Falsy:
 
     def __repr__(self):
         return 'Falsy%r' % (self.parts,)
+
+
+class SuperSub(super):
+    """a cooperative-call proxy type derived from the builtin super"""
 
 
 class StrSub(str):
@@ -907,7 +922,17 @@ def execute(program, ctx, mode):
                 # one entry point per cache family (single-required cache / lookupAll cache / subscriptions cache),
                 # each on its own fresh twin; the choice rotates with the probe so all nine get covered
                 shared_twin = twin() if W.get('shape') in ('chain', 'specdyn') else None
-                for e in ((0, 1, 5, 6, 7)[salt % 5], (2, 3)[(salt >> 8) % 2], (4, 8)[(salt >> 12) % 2]):
+                fams = ((0, 1, 5, 6, 7)[salt % 5], (2, 3)[(salt >> 8) % 2], (4, 8)[(salt >> 12) % 2])
+                # (one probe in three asks only through some of the cache families: a family that is never asked between
+                #  two changes must still be dropped by each of them)
+                sub = (h64(k, 'c05-families') % 9)
+                if sub == 0:
+                    fams = fams[1:]
+                elif sub == 1:
+                    fams = fams[2:]
+                elif sub == 2:
+                    fams = fams[1:2]
+                for e in fams:
                     da, db = Dflt(), Dflt()
                     kind, a = safe_ask(regs, key, e, default=da)
                     # (the fault-placement parts use one fresh twin per key for the three cache families -- each family has a
@@ -1001,7 +1026,7 @@ def execute(program, ctx, mode):
                 if ok and len(objs) == 1 and type(objs[0]).__mro__[1] is not object:
                     # "a super proxy is replaced by its underlying object": the factory is the one lookup() finds for what the
                     # rest of the MRO implements, and it is called with the object, not the proxy
-                    sup = super(type(objs[0]), objs[0])
+                    sup = (SuperSub if (salt >> 3) % 2 else super)(type(objs[0]), objs[0])
                     f2 = cold[r].lookup([providedBy(sup)], pi, nm)
                     del calls[:]
                     d2 = object()
@@ -1469,6 +1494,29 @@ def execute(program, ctx, mode):
                 if not above:
                     continue
                 b = above[op['sel'] % len(above)]
+                if (op['sel'] >> 3) % 2 and len(rb[r]) >= 1:
+                    # variant: the bases of r are assigned (same registries, reversed order when there are several) while b's
+                    # counter is unreadable; whatever the registry says its bases are afterwards is what the model follows
+                    nb = list(reversed(rb[r]))
+                    regs[b].__dict__['_unreadable'] = True
+                    try:
+                        try:
+                            regs[r].__bases__ = tuple(regs[x] for x in nb)
+                            outcome = 'ok'
+                        except Unreadable:
+                            outcome = 'Unreadable'
+                    finally:
+                        regs[b].__dict__.pop('_unreadable', None)
+                    now = [regs.index(x) for x in regs[r].__bases__]
+                    if now != rb[r]:
+                        mutlog.append(('bases', r, now))
+                        rb[r] = now
+                    ctx.fault('cb-raise-in-change-notification-of-a-mutator')
+                    last_mut[0] = 'registry-bases'
+                    ctx.log(step, 'flaky-bases', r, b, now, outcome)
+                    opk = None
+                    ctx.probe('mut-' + last_mut[0])
+                    continue
                 fk = W['keypool'][op['key'] % len(W['keypool'])]
                 rq = tuple(norm([LK[x % len(LK)] if LK[x % len(LK)] in SP else SP[x % len(SP)] for x in fk['req']]))
                 pp = fk['p'] % (nP + 1)
